@@ -414,7 +414,8 @@ def main_check(mod, argv):
             new_failures.append((c, v))
 
     tie_problems = []
-    fact_files = set(getattr(mod, 'FACT_FILES', [])) | {'general'}
+    # extractor problems are tagged with the fact file or with the property id of the fact module
+    fact_files = set(getattr(mod, 'FACT_FILES', [])) | {'general', prop, prop.lower()}
     my_problems = [x for x in b['extract_problems'] if x.split(':', 1)[0] in fact_files
                    or ':' not in x]
     if my_problems:
